@@ -46,7 +46,8 @@ LEVEL_TEXT = ("Coq proof over the reals, for every layer count and every state i
               "ranges of ETREL/TRREL; both models are the Gallina definitions executed at binary64 and compared bit for bit with "
               "hermes.Evatra every run; the property itself is evaluated on the real code on every synthetic case and every "
               "traced day, the potential ET for all five methods on every traced day, and the actual ET booked by the Water sub-steps "
-              "(PFTRANS, ETAG, TRAY gains) against the day's potential ET on every traced day.")
+              "(PFTRANS, ETAG, TRAY gains) against the day's potential ET on every traced day, the theorems' hypotheses on every traced "
+              "day, and the per-crop sums TraG <= ETaG <= ETcG at every harvest and in every crop record.")
 LEVEL_NOTE = ("Transcendental functions are oracle inputs (table of Go's values at the argument bits the model computes). Not proved: "
               "sign and finiteness of stomat's RSTOM, day length facts other than EXT >= 0. Reals axioms of the standard library; "
               "primitive floats; no rounding-error bound between the real and the binary64 semantics (oracle tolerances above).")
@@ -162,16 +163,28 @@ MUN_LINE = ("project=MUN WeatherFolder=MUN soilId=001 fcode=NEU plotNr=00001 Alt
             "parameter=./parameter StartYear=2009 ETpot=%d", "DE")
 
 
+def _pick(sub):
+    """the waterlib trace line that contains every word of [sub]"""
+    for ln, fmt in waterlib.common_period_lines():
+        if all(w in ln.split() for w in sub.split()):
+            return ln, fmt
+    raise KeyError(sub)
+
+
 def _lines(ctx):
-    """traced batch lines: the shipped examples under every ET method"""
+    """traced batch lines: the shipped examples under every ET method; among them a stand rooted down to layer 20 (myP, winter
+    wheat, RootDepth 20) and runs with automatic sowing/harvest and fallow periods (ex3)"""
     endy = 1995 if ctx.thorough else 1985
     plan = [(HAUDE_LINE[0] % ("075", 10001), "EN", None, endy)]
-    for i, m in ((1, 2), (2, 3), (7, 4)):
-        ln, fmt = waterlib.common_period_lines()[i]
+    for sub, m in (("project=ex3 WeatherFolder=extreme soilId=075", 2), ("project=zuc WeatherFolder=extreme", 3),
+                   ("project=myP WeatherFolder=extreme", 4)):
+        ln, fmt = _pick(sub)
         plan.append((ln, fmt, m, endy))
     plan.append((MUN_LINE[0] % 5, "DE", None, 2018 if ctx.thorough else 2013))
     if ctx.thorough:
         for i, (ln, fmt) in enumerate(waterlib.common_period_lines()):
+            if "soilId=902" in ln:      # a two-layer profile: outside the model (water.go:567 reads layers 0..2)
+                continue
             plan.append((ln, fmt, 2 + (i % 3), endy))
         plan.append((HAUDE_LINE[0] % ("160", 10002), "EN", None, endy))
         for m in (2, 3, 4):      # real weather without global radiation: sunshine hours
@@ -303,27 +316,62 @@ def correspond(ctx):
     if ctx.extra["traced_days:rain_overflow_zsr_fraction_ge_half_days"] == 0:
         c.mismatches.append({"kind": "coverage", "what": "no traced day whose sub-step count comes from the rain-overflow branch "
                              "with a ZSR fraction >= 0.5 (the day-level booked-ET oracle needs them)"})
-    hyp = {}
-    for r_ in runs:
-        for k, v in r_.get("hyp", {}).items():
-            hyp[k] = hyp.get(k, 0) + v
-    ctx.extra["theorem_hypotheses_violated_on_traced_days"] = hyp
+    ctx.extra["theorem_hypotheses_violated_on_traced_days"] = sum(r_.get("hyp_violations", 0) for r_ in runs)
+    ctx.extra["traced_harvests"] = sum(r_.get("harvests", 0) for r_ in runs)
+    ctx.extra["traced_harvests_after_a_fallow"] = sum(r_.get("harvests_after_a_fallow", 0) for r_ in runs)
+    ctx.extra["max_root_depth_in_20_layer_profiles"] = max([r_.get("max_wurz_20_layer_profiles", 0) for r_ in runs] or [0])
+    if ctx.extra["max_root_depth_in_20_layer_profiles"] < 20:
+        c.mismatches.append({"kind": "coverage", "what": "no traced stand whose roots reach layer 20 of a 20-layer profile"})
+    if ctx.extra["traced_harvests_after_a_fallow"] == 0:
+        c.mismatches.append({"kind": "coverage", "what": "no traced harvest of a crop sown after a fallow period"})
     ctx.extra["traced_crop_days_with_LUKRIT_0"] = sum(r_.get("lukrit_zero_days", 0) for r_ in runs)
     ctx.extra["traced_crop_days_with_LUKRIT_0_and_topsoil_above_pore_volume(F27)"] = sum(
         r_.get("lukrit_zero_topsoil_above_pore_volume_days", 0) for r_ in runs)
     lup = [r_["min_lupor"] for r_ in runs if isinstance(r_.get("min_lupor"), (int, float))]
     ctx.extra["min_air_filled_pore_volume_top30cm_on_crop_days"] = min(lup) if lup else None
-    if any(hyp.values()):
-        c.notes.append("a hypothesis of Prop_C08.evatra_wf does not hold on a traced state: %s (the oracle decides whether "
-                       "the property itself fails there)" % hyp)
     c.samples = [{k: (v if not isinstance(v, list) else v[:3]) for k, v in cases[j]["in"].items()}
                  for j in (0, len(cases) // 2)] if cases else []
     return c
 
 
+def crop_records(ctx):
+    """the crop result files of the traced runs: (file, row number, crop, TraG, ETaG, ETcG) in mm as printed"""
+    import glob
+    out = []
+    for fn in sorted(glob.glob(os.path.join(ctx.work, "R", "c08_*", "C*"))):
+        txt = open(fn, errors="replace").read().split("\n")
+        if not txt:
+            continue
+        csv = "," in txt[0]
+        split = (lambda l: [t.strip() for t in l.split(",")]) if csv else (lambda l: l.split())
+        hdr = split(txt[0])
+        if "ETcG" not in hdr:
+            continue
+        ic = hdr.index("ETcG")
+        for k, ln in enumerate(txt[2:]):
+            t = split(ln)
+            if len(t) <= ic + 2 or not t[0]:
+                continue
+            try:
+                etc, eta, tra = float(t[ic]), float(t[ic + 1]), float(t[ic + 2])
+            except ValueError:
+                out.append((os.path.relpath(fn, ctx.work), k, t[7] if len(t) > 7 else "?", None, None, None))
+                continue
+            out.append((os.path.relpath(fn, ctx.work), k, t[7], tra, eta, etc))
+    return out
+
+
 def oracle(ctx, search):
     rc, rows, orc, other, err = _run(ctx)
     fails = []
+    recs = crop_records(ctx)
+    ctx.extra["crop_records_checked"] = len(recs)
+    for fn, k, crop, tra, eta, etc in recs:
+        # whole millimetres as printed: rounding is monotone, so the order of the counters survives it
+        if tra is None or not (0 <= tra <= eta <= etc):
+            fails.append(Fail(key="season-aet-above-pet:crop-record:%s:row=%d" % (fn, k), seed=ctx.seed, tier=ctx.tier,
+                              what="crop record %s row %d (%s): TraG=%s ETaG=%s ETcG=%s mm violates 0 <= TraG <= ETaG <= ETcG"
+                                   % (fn, k, crop, tra, eta, etc)))
     if rc != 0:
         fails.append(Fail(key="harness-crash", what="Evatra / traced run aborted", stderr=err[-800:]))
     for ln in orc:
